@@ -350,7 +350,7 @@ theorem noAccess_tokOf (op : BinOp) : noAccess (tokOf op) := by
 
 /-- the left operand of `op`, unparenthesised, may be followed by `op` -/
 theorem okAfter_left {a : Expr} {op : BinOp} (hp : binPrec op ≤ precedenceOf a) : okAfter a (tokOf op) := by
-  refine ⟨noAccess_tokOf T op, ?_⟩
+  refine ⟨noAccess_tokOf op, ?_⟩
   cases a <;> simp [edgeOk]
   case bin op1 _ _ _ =>
     right; simp [precedenceOf] at hp; rw [prec_tokOf T]; exact hp
